@@ -3,13 +3,16 @@ import ExponaxModel.Proofs.Aliasing
 import ExponaxModel.Proofs.MeanMode
 import ExponaxModel.Properties.C02
 import ExponaxModel.Proofs.Conservation
+import ExponaxModel.Proofs.InvariantsVort
+import ExponaxModel.Proofs.InvariantsRot3dLeray
 /-
 C09 — conserved quantities and equilibria survive the discretisation exactly.
 Mean: zero mean-mode output of the conservative / Cahn–Hilliard / gradient-norm(zero-fix) terms in every dimension and
 of the 2-D vorticity term for EVERY input spectrum; hence n ETDRK steps of any order keep the mean mode.  Equilibria:
 fixed points of every regenerated stage formula.  Energy: the dealiased 1-D convection term does no work (spectral
-triad identity and grid form).  Not proved: the no-work / enstrophy identities of the 2-D vorticity and 3-D rotational
-terms (observed by the oracle); the 3-D mean read-off is stated as it is (it vanishes for divergence-free input only).
+triad identity and grid form); the dealiased 2-D vorticity term conserves enstrophy and energy; the 3-D rotational term
+does no work on divergence-free velocities.  The 3-D mean read-off is stated as it is (it vanishes for divergence-free
+input only).
 -/
 set_option linter.unusedVariables false
 namespace Exponax
@@ -183,5 +186,49 @@ theorem C09_convection_no_work_grid (c : Cfg ℂ) (hD : c.D = 1) (hq : c.fq ≠ 
     ∑ j ∈ Finset.range c.N, (nifft c (Transform.rfftnM 1 c.N x)).getD j 0 *
       (Transform.irfftnM 1 c.N ((convection c 1 (b : ℂ) true true #[Transform.rfftnM 1 c.N x]).getD 0 #[])).getD j 0
       = 0 := Conserve.convection_energy_grid c hD hq hK hN s hs b x hx
+
+/-! ### 2-D vorticity form: enstrophy and energy; 3-D rotational form: energy (`Proofs/Invariants*.lean`) -/
+
+/-- ENSTROPHY: the dealiased 2-D vorticity convection term does no work against the (truncated) vorticity -/
+theorem C09_vorticity_enstrophy (c : Cfg ℂ) (hD : c.D = 2) (hq : c.fq ≠ 0) (hK : 3 * Alias.Kc c < (c.N : ℤ))
+    (hN : 0 < c.N) (s : ℝ) (hs : c.s = (s : ℂ)) (b : ℝ) (x : Array ℂ) (hx : AliasND.IsRealND c.D c.N x) :
+    ∑ j ∈ Finset.range (c.N ^ c.D), (nifft c (Transform.rfftnM c.D c.N x)).getD j 0 *
+      (Transform.irfftnM c.D c.N ((vorticity2d c (b : ℂ) none #[Transform.rfftnM c.D c.N x]).getD 0 #[])).getD j 0 = 0 :=
+  Invariants.vorticity2d_enstrophy_grid c hD hq hK hN s hs b x hx
+
+/-- ENERGY: nor against the stream function `ψ = Δ⁻¹ω` -/
+theorem C09_vorticity_energy (c : Cfg ℂ) (hD : c.D = 2) (hq : c.fq ≠ 0) (hK : 3 * Alias.Kc c < (c.N : ℤ))
+    (hN : 0 < c.N) (s : ℝ) (hs : c.s = (s : ℂ)) (b : ℝ) (x : Array ℂ) (hx : AliasND.IsRealND c.D c.N x) :
+    ∑ j ∈ Finset.range (c.N ^ c.D), (Invariants.psiGrid c (Transform.rfftnM c.D c.N x)).getD j 0 *
+      (Transform.irfftnM c.D c.N ((vorticity2d c (b : ℂ) none #[Transform.rfftnM c.D c.N x]).getD 0 #[])).getD j 0 = 0 :=
+  Invariants.vorticity2d_energy_grid c hD hq hK hN s hs b x hx
+
+/-- the triad identities behind them hold for ANY truncated spectrum and any cut-off -/
+theorem C09_vorticity_triads (c : Cfg ℂ) (K : ℤ) (X : (Fin c.D → ℤ) → ℂ) :
+    (Invariants.triV K X fun _ q r => Invariants.vortWeight c q r) = 0 ∧
+      (Invariants.triV K X fun p q r => AliasND.invLapSym c p * Invariants.vortWeight c q r) = 0 :=
+  ⟨Invariants.vorticity2d_enstrophy_triad c K X, Invariants.vorticity2d_energy_triad c K X⟩
+
+/-- 3-D ROTATIONAL FORM: `⟨u, P(u × ω)⟩ = 0` for every real velocity that is divergence-free on the retained modes
+    (pointwise orthogonality survives aliasing: only `2K < N` is needed) … -/
+theorem C09_rotational_no_work (c : Cfg ℂ) (hD : c.D = 3) (hq : c.fq ≠ 0) (hK : 2 * Alias.Kc c < (c.N : ℤ)) (hN : 0 < c.N)
+    (s : ℝ) (hs : c.s = (s : ℂ)) (v : ℕ → Array ℂ) (hv : ∀ i < 3, AliasND.IsRealND c.D c.N (v i))
+    (hdiv : ∀ h < modes c, mask c h = 1 →
+      ∑ d ∈ Finset.range c.D, deriv c d h * (Transform.rfftnM c.D c.N (v d)).getD h 0 = 0) :
+    ∑ i ∈ Finset.range 3, ∑ j ∈ Finset.range (c.N ^ c.D), (v i).getD j 0 *
+      (Transform.irfftnM c.D c.N ((projected3d c none #[Transform.rfftnM c.D c.N (v 0), Transform.rfftnM c.D c.N (v 1),
+        Transform.rfftnM c.D c.N (v 2)]).getD i #[])).getD j 0 = 0 :=
+  Invariants.projected3d_no_work_real_full c hD hq hK hN s hs v hv hdiv
+
+/-- … in particular for the Leray projection of ANY real field (no divergence hypothesis) -/
+theorem C09_rotational_no_work_projected (c : Cfg ℂ) (hD : c.D = 3) (hq : c.fq ≠ 0) (hK : 2 * Alias.Kc c < (c.N : ℤ))
+    (hN : 0 < c.N) (s : ℝ) (hs : c.s = (s : ℂ)) (hs0 : s ≠ 0) (w : ℕ → Array ℂ)
+    (hw : ∀ e < 3, AliasND.IsRealND c.D c.N (w e)) :
+    ∑ i ∈ Finset.range 3, ∑ j ∈ Finset.range (c.N ^ c.D),
+      (nifft c ((leray c #[Transform.rfftnM c.D c.N (w 0), Transform.rfftnM c.D c.N (w 1),
+        Transform.rfftnM c.D c.N (w 2)]).getD i #[])).getD j 0 *
+      (Transform.irfftnM c.D c.N ((projected3d c none (leray c #[Transform.rfftnM c.D c.N (w 0),
+        Transform.rfftnM c.D c.N (w 1), Transform.rfftnM c.D c.N (w 2)])).getD i #[])).getD j 0 = 0 :=
+  Invariants.projected3d_no_work_leray c hD hq hK hN s hs hs0 w hw
 
 end Exponax
